@@ -72,24 +72,26 @@ where
         debug_assert!(val.is_finite(), "value must be finite");
 
         if self.q_vals.len() >= self.window_len {
-            let old_val = self.q_vals.front().unwrap();
-            let old_wtd = self.q_wtd.front().unwrap();
-            self.wtd_sum = self.wtd_sum - *old_wtd * *old_val;
-            self.cum_wt = self.cum_wt - *old_wtd;
-
             self.q_vals.pop_front();
-            self.q_wtd.pop_front();
             self.q_out.pop_front();
         }
-        let count = T::from(self.q_vals.len()).expect("can convert");
-        let wtd = (-(count - self.m).powi(2)
-            / (T::from(2.0).expect("can convert") * self.s * self.s))
-            .exp();
-        self.wtd_sum = self.wtd_sum + wtd * val;
-        self.cum_wt = self.cum_wt + wtd;
-
         self.q_vals.push_back(val);
-        self.q_wtd.push_back(wtd);
+
+        // A weight belongs to a position inside the window (0 = oldest), not to a sample:
+        // `q_wtd[k]` is the gaussian weight of position k and is computed once.
+        if self.q_wtd.len() < self.q_vals.len() {
+            let count = T::from(self.q_wtd.len()).expect("can convert");
+            let wtd = (-(count - self.m).powi(2)
+                / (T::from(2.0).expect("can convert") * self.s * self.s))
+                .exp();
+            self.q_wtd.push_back(wtd);
+        }
+        self.wtd_sum = T::zero();
+        self.cum_wt = T::zero();
+        for (v, wtd) in self.q_vals.iter().zip(self.q_wtd.iter()) {
+            self.wtd_sum = self.wtd_sum + *wtd * *v;
+            self.cum_wt = self.cum_wt + *wtd;
+        }
 
         let ala = self.wtd_sum / self.cum_wt;
         debug_assert!(ala.is_finite(), "value must be finite");
